@@ -1,10 +1,21 @@
 import json, os
 PROPERTIES = ['C06', 'C02']
 BOUNDS = {
-    'quick': 'pointer iterators, default comparator: first range length N = 0..4, second range / needle length M = 0..3 (enumerated); every element, searched value, predicate parameter, count, shift and split point symbolic (32/64-bit full range within the documented precondition)',
-    'thorough': 'N = 0..6, M = 0..4',
+    'quick': 'pointer iterators with the default comparator: first range length LN = 0..4, second range / needle length LM = 0..3, every combination (merge/set_*: LN+LM <= 5, find_end: LN+LM <= 6); '
+             'greater and key-only (low 16 bits, upper bits are identity tags) comparators / equivalences at LN in {1,3,4}, LM in {1,3}; forward-only iterator wrapper at LN in {0,2,4}, LM in {0,2}; '
+             'bidirectional wrapper for the algorithms that need it at LN in {0,2,4}; single-pass input + write-only output wrappers at LN in {0,3}, LM in {0,2}. '
+             'Symbolic: every element (32 bit), searched / replaced values, predicate parameters (mask, pivot), generator seed/step, counts (copy_n, fill_n, generate_n <= LN incl. negative; search_n any int), '
+             'shift amounts (any non-negative 64-bit value; negative for the documented no-op of shift_right), rotate / rotate_copy split point 0..LN, iter_swap positions',
+    'thorough': 'as quick with LN = 0..6, LM = 0..4 for pointers (merge/set_*/find_end: LN+LM <= 7, is_permutation / equal_range: LN <= 5); comparators and wrappers at LN = 0..5, LM = 0..3; '
+                'key-only comparator over bidirectional wrapper LN <= 4; struct element type (key, tag) with key-only operators over pointers and forward wrapper',
 }
-ASSUMPTIONS = []
+ASSUMPTIONS = [
+    'alg_std: oracle = libstdc++ 12 algorithm of the same name on a copy, compiled through the same pipeline; for search, find_end, is_permutation, merge, set_* the oracle is called through a forward/bidirectional iterator view (same specification, cheaper encoding than the unrolled random-access implementation); rotate is compared with std::rotate_copy',
+    'alg_std: documented preconditions assumed: sorted inputs for includes/merge/set_*; range partitioned w.r.t. the value for lower_bound/upper_bound/equal_range/binary_search; partitioned range for partition_point; clamp: !(hi < lo); for_each_n: 0 <= n <= length; copy_n/fill_n/generate_n: n <= length of the buffers; shift_left/shift_right: n >= 0 ([alg.shift]); 3-iterator overloads get a second range of the same length',
+    'alg_std: remove/remove_if/unique compare [first, result) only, shift_left [first, result), shift_right [result, last) (the rest is unspecified by the standard); destinations are pre-filled with symbolic values and compared as a whole (nothing else written)',
+    'alg_std: unary predicates are the family (bits(x) & mask) < pivot with symbolic mask and pivot; comparators: operator< (default overload), greater, key-only; arbitrary user predicates are outside the claim',
+    'alg_std: etl::search_n, inplace_merge, stable_partition do not instantiate for non-pointer / non-random-access iterators and etl::unique_copy not for a write-only output iterator; those combinations are compile-time restrictions and are not part of the run-time claim',
+]
 # entry -> (ranges, minimal iterator kinds it is instantiated for, which configurable functor it takes: 'C' comparator, 'E' equivalence, '' none)
 PTR, FWD, BIDI, INP = (0,), (0, 1, 2), (0, 2), (0, 1, 2, 3)
 E = {
@@ -13,7 +24,7 @@ E = {
  'is_sorted': (1, FWD, 'C'), 'is_sorted_until': (1, FWD, 'C'), 'min_element': (1, FWD, 'C'), 'max_element': (1, FWD, 'C'), 'minmax_element': (1, FWD, 'C'),
  'lower_bound': (1, FWD, 'C'), 'upper_bound': (1, FWD, 'C'), 'equal_range': (1, FWD, 'C'), 'binary_search': (1, FWD, 'C'), 'search_n': (1, PTR, 'E'),
  'clamp': (0, PTR, 'C'), 'min': (0, PTR, 'C'), 'max': (0, PTR, 'C'), 'minmax': (0, PTR, 'C'), 'iter_swap': (1, FWD, ''),
- 'equal3': (1, INP, 'E'), 'equal4': (2, INP, 'E'), 'mismatch3': (1, INP, 'E'), 'mismatch4': (2, INP, 'E'), 'lexicographical_compare': (2, INP, 'C'),
+ 'equal3': (1, INP, 'E'), 'equal4': (2, INP, 'E'), 'equal4_symlen': (2, INP, 'E'), 'is_permutation4_symlen': (2, FWD, ''), 'mismatch3': (1, INP, 'E'), 'mismatch4': (2, INP, 'E'), 'lexicographical_compare': (2, INP, 'C'),
  'search': (2, FWD, 'E'), 'search_searcher': (2, FWD, ''), 'find_end': (2, FWD, 'E'), 'find_first_of': (2, INP, 'E'), 'includes': (2, INP, 'C'),
  'is_permutation3': (1, FWD, ''), 'is_permutation4': (2, FWD, ''),
  'copy': (1, INP, ''), 'copy_overlap': (1, FWD, ''), 'copy_if': (1, INP, ''), 'copy_n': (1, INP, ''), 'move': (1, INP, ''), 'copy_backward': (1, BIDI, ''), 'copy_backward_overlap': (1, BIDI, ''),
@@ -39,7 +50,7 @@ def open_ids():
     return ids
 
 def one(entry, n, m, it, cmp, elem, ub, budget=120):
-    un = (n + m + 2) if entry in MERGE or entry == 'find_end' else max(n, m) + 2
+    un = (n + m + 2) if entry in MERGE else max(n, m) + 2
     mem = 4 * (n + m) + 6
     return dict(entry='q_' + entry, cfg={'LN': n, 'LM': m, 'IT': it, 'CMP': cmp, 'ELEM': elem}, unwind=un,
                 unwindset={'ll_memcpy.0': mem, 'll_memmove.0': mem, 'll_memmove.1': mem, 'll_memset.0': mem, 'memcmp.0': mem}, budget=budget, solver='cadical', ub=ub, nofunc=ub)
@@ -63,6 +74,7 @@ def allowed(entry, n, m, tier):
     q = tier == 'quick'
     if entry in MERGE: return n + m <= (5 if q else 7)
     if entry == 'find_end': return n + m <= (6 if q else 7)
+    if entry in ('equal4_symlen', 'is_permutation4_symlen'): return m == n and n > 0   # second length symbolic in 0..LM: only LM == LN configurations
     if entry in ('is_permutation3', 'is_permutation4'): return n <= (4 if q else 5)
     if entry == 'equal_range': return n <= (4 if q else 5)
     return True
@@ -75,10 +87,10 @@ def queries(tier, prop='C06'):
         nmax, mmax = 4, 3
         grid(out, range(0, nmax + 1), range(0, mmax + 1), 0, 0, 0, ub)               # pointers, default comparator: every length
         for cmp in (1, 2):                                                          # greater / key-only comparator and equivalence
-            grid(out, (1, 3, 4), (0, 2, 3), 0, cmp, 0, ub)
-        grid(out, (0, 1, 3, 4), (0, 1, 3), 1, 0, 0, ub)                              # forward-only iterators
+            grid(out, (1, 3, 4), (1, 3), 0, cmp, 0, ub)
+        grid(out, (0, 2, 4), (0, 2), 1, 0, 0, ub)                              # forward-only iterators
         grid(out, (0, 2, 4), (0, 2), 2, 0, 0, ub, only=BIDI_ONLY)                    # bidirectional iterators: the algorithms that need them
-        grid(out, (0, 1, 3), (0, 2), 3, 0, 0, ub)                                    # single-pass input / write-only output iterators
+        grid(out, (0, 3), (0, 2), 3, 0, 0, ub)                                    # single-pass input / write-only output iterators
     else:
         nmax, mmax = 6, 4
         grid(out, range(0, nmax + 1), range(0, mmax + 1), 0, 0, 0, ub)
